@@ -47,11 +47,20 @@ func Find(p Meta, path string) Definition {
 }
 
 func findInChoices(defs []Definition, ident string) Definition {
+	return findInChoicesOnce(defs, ident, nil)
+}
+
+// a recursive grouping makes a choice hold itself (choice, case, same choice): each choice is looked into once
+func findInChoicesOnce(defs []Definition, ident string, seen map[*Choice]bool) Definition {
 	for _, def := range defs {
 		choice, isChoice := def.(*Choice)
-		if !isChoice {
+		if !isChoice || seen[choice] {
 			continue
 		}
+		if seen == nil {
+			seen = make(map[*Choice]bool)
+		}
+		seen[choice] = true
 		for _, caseIdent := range choice.CaseIdents() {
 			kase := choice.Cases()[caseIdent]
 			for _, kdef := range kase.DataDefinitions() {
@@ -59,7 +68,7 @@ func findInChoices(defs []Definition, ident string) Definition {
 					return kdef
 				}
 			}
-			if found := findInChoices(kase.DataDefinitions(), ident); found != nil {
+			if found := findInChoicesOnce(kase.DataDefinitions(), ident, seen); found != nil {
 				return found
 			}
 		}
